@@ -32,6 +32,13 @@ theorem mergeCommitP_store (mp : Nat) (g : GState) (e : Ev) :
   unfold mergeCommitP mergeCommit
   cases e.kind <;> simp
 
+@[simp] theorem mergeCommitP_active (mp : Nat) (g : GState) (e : Ev) : (mergeCommitP mp g e).active = g.active := by
+  unfold mergeCommitP mergeCommit
+  cases e.kind with
+  | commit b sw => cases b <;> simp [applyBody]
+  | app a b c => simp
+  | leave => simp
+
 theorem mergeCommitP_eq (mp : Nat) (g : GState) (e : Ev) (h : e.sweptX = []) : mergeCommitP mp g e = mergeCommit mp g e := by
   unfold mergeCommitP
   cases hk : e.kind <;> simp [h, applyX_nil]
@@ -188,7 +195,7 @@ theorem pso_processProposal {L : Nat → Prop} (nx : Nat) (c : Cl) (e : Ev) (p :
     simp only
     split
     · split
-      · exact ⟨hst, h.2⟩
+      · split <;> exact ⟨hst, h.2⟩
       · refine ⟨?_, h.2⟩
         show SelfOnly L (ensureSecret { storeProp c.g e.sender (.remove e.sender) with pending := some (autoCommitEv c (storeProp c.g e.sender (.remove e.sender)) nx) })
         apply selfOnly_ensureSecret
